@@ -235,6 +235,7 @@ def concrete_tokens(sites, env, loop_counts=None):
 
 
 ALIGN = []   # alignment (token index, reader site) of the last reader_accepts() run
+LAST_ENV = {}   # the reader's valuation (tagged reads -> values) at the end of the last reader_accepts() run
 
 ASSUMED = ("discr(read_", "compute_seed_hash", "next(", "discr(map_err", "position(", "get_ref(", "remaining(", "is_nan(", "is_infinite(", "discr(check_", "discr(try_from_bytes", "discr(entries_for_config")
 
@@ -293,6 +294,8 @@ def reader_accepts(sites, tokens, base_env):
         i += 1
     if i < n:
         return (False, "the reader stops after %d of %d tokens: %s is never read" % (i, n, [t[0] for t in tokens[i:]]))
+    LAST_ENV.clear()
+    LAST_ENV.update(env)
     return (True, "")
 
 
